@@ -4,6 +4,7 @@ __all__ = ['ncf2lateral_boundary']
 
 import numpy as np
 from PseudoNetCDF._getwriter import registerwriter
+from PseudoNetCDF.camxfiles.timetuple import rollyear
 
 _emiss_hdr_fmt = np.dtype(dict(names=['SPAD', 'name', 'note', 'itzon', 'nspec',
                                       'ibdate', 'btime', 'iedate', 'etime',
@@ -90,6 +91,7 @@ def ncf2lateral_boundary(ncffile, outpath):
     time_hdr['etime'] = time + 1.
     time_hdr['iedate'] += (time_hdr['etime'] // 24).astype('i')
     time_hdr['etime'] -= (time_hdr['etime'] // 24) * 24
+    time_hdr['iedate'] = rollyear(time_hdr['iedate'])
     emiss_hdr['ibdate'] = time_hdr['ibdate'][0]
     emiss_hdr['btime'] = time_hdr['btime'][0]
     emiss_hdr['iedate'] = time_hdr['iedate'][-1]
